@@ -12,6 +12,11 @@ resume   Differential on the *same call sequence*.  The iterations are cut into 
          probe, iteration count and constraints (floating-point tolerance); immediately after a load or a
          clone the new object must report exactly what its source reported; save() must leave its source
          as it was (reported state, device, attribute set).
+         The optimiser set may change along the sequence (a dataset / probe optimiser first attached by a
+         call after an interruption), and in lineage cases the first interruption of the reload branch is a
+         data-less checkpoint (save_raw_data=False + from_file(dset=...)) followed later by a with-data
+         checkpoint and a clone of that object.  The batch order is outside the property: the harness
+         re-installs the source's numpy generator state after every load/clone (see _set_rng_state).
 skip     History of Ptychography.save calls on ONE object with different skip= / save_raw_data= / store
          arguments.  Every save that is complete w.r.t. the property ("saved together with its data":
          save_raw_data=True, dataset not skipped) is reloaded and must report whatever that very call did
@@ -325,6 +330,7 @@ def _save_load(ctx, case, who, src, store, load_device, dataless=False):
     before = _report(src)
     keys0 = set(vars(src))
     dev0 = src.device
+    rng_state = _rng_state(src)
     path = ctx.tmp(".zip" if store == "zip" else "")
     what = "save_raw_data=False" if dataless else "save_raw_data=True"
     with ctx.sut(case, "%s: Ptychography.save(%s, store=%r)" % (who, what, store)):
@@ -354,6 +360,7 @@ def _save_load(ctx, case, who, src, store, load_device, dataless=False):
             new = Q.Ptychography.from_file(path, **kw)
     with ctx.sut(case, "%s: reading the state of the reloaded object" % who):
         got = _report(new)
+    _set_rng_state(new, rng_state)
     if dataless:
         got["constraints"].pop("dataset", None)
         before = dict(before, constraints={k: v for k, v in before["constraints"].items() if k != "dataset"})
@@ -362,10 +369,27 @@ def _save_load(ctx, case, who, src, store, load_device, dataless=False):
     return new
 
 
+def _rng_state(pt):
+    return copy.deepcopy(pt.rng.bit_generator.state)
+
+
+def _set_rng_state(pt, state):
+    """The order of the patterns inside the full batch is drawn from the object's numpy generator, whose
+    state is not restored by a reload (and clone() may draw from its source's generator): the property
+    excludes that order.  The harness therefore re-installs the state the source had (public `rng`
+    property) so that every branch sums in the same order as the uninterrupted run and float32 rounding --
+    and with it every noise-decided Adam step -- is identical instead of merely close."""
+    pt.rng.bit_generator.state = copy.deepcopy(state)
+
+
 def _clone(ctx, case, who, src):
     before = _report(src)
+    rng_state = _rng_state(src)
     with ctx.sut(case, "%s: clone()" % who):
         new = src.clone()
+    if new is not src:
+        _set_rng_state(new, rng_state)
+    _set_rng_state(src, rng_state)
     if new is src:
         _fail(case, "%s: clone() returned the object itself" % who)
     with ctx.sut(case, "%s: reading the state of the clone / the cloned object" % who):
